@@ -294,6 +294,37 @@ theorem C14_full {fmt : Rat → String} (hinj : ∀ x y, fmt x = fmt y → x = y
       rw [this]
 
 
+/-- without `include_incomplete` and with `hop ≤ duration` the segments still tile the clip up to
+    a tail shorter than one hop: every `t` with `t + hop ≤ clip end` lies in a (complete) segment,
+    provided one window fits at all -/
+theorem C14_complete_tail {s e dur hop : Rat} {out : List (Rat × Rat)}
+    (h : segmentClip s e dur hop false = .ok out) (hle : hop ≤ dur) (hfit : dur ≤ e - s) (t : Rat)
+    (h1 : s ≤ t) (h2 : t + hop ≤ e) : ∃ p ∈ out, p.1 ≤ t ∧ t < p.2 ∧ p.2 - p.1 = dur := by
+  obtain ⟨hd, hh, _⟩ := ok_inv h
+  obtain ⟨a1, a2⟩ := floor_toNat_bounds (t - s) hop hh (by grind)
+  obtain ⟨b1, b2⟩ := floor_toNat_bounds (e - s - dur) hop hh (by grind)
+  generalize ((t - s) / hop).floor.toNat = i at a1 a2
+  generalize ((e - s - dur) / hop).floor.toNat = n at b1 b2
+  by_cases hin : i ≤ n
+  · refine ⟨(s + i * hop, s + i * hop + dur), ?_, ?_, ?_, ?_⟩
+    · rw [C14_complete_iff h]
+      refine ⟨i, rfl, rfl, ?_⟩
+      have := lattice_mono s hop hh hin
+      grind
+    · simp only; grind
+    · simp only; grind
+    · simp only; grind
+  · refine ⟨(s + n * hop, s + n * hop + dur), ?_, ?_, ?_, ?_⟩
+    · rw [C14_complete_iff h]
+      exact ⟨n, rfl, rfl, by grind⟩
+    · have := lattice_mono s hop hh (Nat.le_of_lt (Nat.lt_of_not_le hin))
+      simp only; grind
+    · simp only; grind
+    · simp only; grind
+
+example : segmentClip 0 10 3 2 false = .ok [(0, 3), (2, 5), (4, 7), (6, 9)] ∧ (3:Rat) ≤ 10 - 0 ∧ (2:Rat) ≤ 3 := by
+  decide +kernel
+
 -- non-vacuity of the review theorems
 example : count 0 10 3 3 true = 4 ∧ count 0 10 1 4 false = 3 ∧ count 0 10 3 2 false = 4 ∧
     count 0 2 3 1 false = 0 ∧ count 0 2 3 1 true = 2 ∧ count 5 5 1 1 true = 0 := by decide +kernel
